@@ -192,6 +192,9 @@ func c20GeneratorGuard(snap c20Snapshot) string {
 			}
 			got = append(got, g.Rules...)
 		}
+		if f.Broken && len(got) == len(places)+1 && got[len(got)-1].Error.Err != nil {
+			got = got[:len(got)-1] // the bystander, meant to be unusable
+		}
 		if len(got) != len(places) {
 			return fmt.Sprintf("%s: parser finds %d rules, the model has %d", f.Path, len(got), len(places))
 		}
